@@ -314,6 +314,10 @@ def _announce_events(rng, n):
         elif e["kind"] == 10002:
             if any(x["kind"] == 10002 and x["pubkey"] == e["pubkey"] for x in evs):
                 e["kind"] = 1
+        # the id generator favours a few boundary patterns (00…0, ff…f): two *different* events of one schedule must not share an id —
+        # no client can produce that (the id is the hash of the contents), and the oracle below counts per id
+        while any(x["id"] == e["id"] for x in evs):
+            e["id"] = rng.randbytes(32).hex()
         evs.append(e)
     return evs
 
